@@ -352,6 +352,9 @@ def build_corpus():
     # the same characters as a path and as a plain string, at the same line budget (the path printer splits at '/')
     path_text = '/data/warehouse/region=eu-west-1/year=2024/month=02/part-00017.snappy.parquet-checksum.sha256'
     add('path_text_as_path', 'equal', pathlib.PurePosixPath(path_text), dict(width=40))
+    add('path_text_as_path_default', 'equal', pathlib.PurePosixPath(path_text))
+    add('path_text_as_str_default', 'equal', path_text)
+    add('path_text_in_dict_default', 'equal', {'p': pathlib.PurePosixPath(path_text), 's': path_text})
     add('path_text_as_str', 'equal', path_text, dict(width=40))
     add('path_text_both', 'equal', [path_text, pathlib.PurePosixPath(path_text)], dict(width=44))
     add('partial', 'lazy', functools.partial(int, base=2))
